@@ -114,6 +114,20 @@ def context_guards(rep, prog):
     rep.floor("Ok exits of the Argon2 context constructor", nok, 1)
     # argon2_hash must go through the constructor with `?` before filling memory
     for g in prog.callers(f):
+        for c in g.calls():
+            if f not in prog.callee_fns(c):
+                continue
+            # the validated/hashed context carries the caller's own t, m and lanes: the scalar operands
+            # are bare parameters of the caller (H0 must absorb the *requested* m, not the rounded one)
+            for i, a in enumerate(c.args):
+                ty = f.locals[i + 1]["t"]
+                if ty not in ("u32", "u64", "usize"):
+                    continue
+                e = expr_of_operand(g, a)
+                bare = e.k == "local" and 1 <= e.a <= g.argc
+                same_name = bare and g.local_name(e.a) == f.local_name(i + 1) or (bare and f.local_name(i + 1) in ("parallelism", "lanes"))
+                rep.ob("PROV", "%s|context operand `%s` is the caller's parameter" % (g.path, f.local_name(i + 1)), bare and same_name,
+                       "operand for `%s` is %s" % (f.local_name(i + 1), deep_repr(e)[:80]), loc=c.loc())
         nc = [c for c in g.calls() if f in prog.callee_fns(c)]
         fill = [c for c in g.calls() if "fill" in c.rpath and c.is_local]
         from ..engines import OK, ERR
